@@ -370,6 +370,13 @@ def classify(which, e, r, baseline=None):
     asan = [s for s in san if s[0].startswith("asan|") and s[0] not in baseline["asan"]]
     lsan = [s for s in san if s[0].startswith("lsan|") and s[0] not in baseline["lsan"]]
     if r.get("hard_timeout"):
+        if r.get("rerun_also_timed_out"):
+            pk = parked_functions(r.get("gdb", ""))
+            return [("hang", "the session did not finish within the hard limit in two independent runs (%d ms wall, %d ms "
+                             "CPU: %s); progress '%s' shows the call that never returned; threads in: %s"
+                     % (r.get("ms", 0), r.get("cpu_ms", 0),
+                        "busy-waiting" if r.get("cpu_ms", 0) > 0.5 * r.get("ms", 1) else "blocked",
+                        r.get("progress", "")[-100:], " | ".join(pk) or "(no gdb output)"))], "violated"
         return [("timeout", "hard watchdog without a quiescent dead-lock; progress=%s" % r.get("progress"))], "inconclusive"
     if r.get("hang"):
         pk = parked_functions(r.get("gdb", ""))
@@ -480,7 +487,11 @@ def explore(chk, which, tier, opts, workers, ks_override=None, scale=1.0, label=
     # inconclusive (hard timeout / lost) cases are re-run once
     again = [k for k in ks if k not in res or res[k].get("hard_timeout")]
     if again:
+        first = {k: res.get(k) for k in again}
         res.update(run_ks(which, prefix + "_re", again, opts, workers))
+        for k in again:
+            if first[k] and first[k].get("hard_timeout") and res.get(k, {}).get("hard_timeout"):
+                res[k]["rerun_also_timed_out"] = True
     outcomes = collections.Counter()
     found = {}
     ran_phase = collections.Counter()
@@ -544,9 +555,9 @@ def run(chk, tier, replay=None):
     _, _, ex = explore(chk, "enc", tier, enc_opts(), workers, scale=scale)
     ex_all &= ex
     ivf = tiny_ivf(chk.dir)
-    _, _, ex = explore(chk, "dec", tier, ["ivf=" + ivf, "threads=1", "frames=2"], workers, scale=scale, label="dec-threads1")
+    _, _, ex = explore(chk, "dec", tier, ["ivf=" + ivf, "threads=1", "frames=2", "hard_s=150"], workers, scale=scale, label="dec-threads1")
     ex_all &= ex
-    _, _, ex = explore(chk, "dec", tier, ["ivf=" + ivf, "threads=2", "frames=2"], workers, scale=scale, label="dec-threads2",
+    _, _, ex = explore(chk, "dec", tier, ["ivf=" + ivf, "threads=2", "frames=2", "hard_s=150"], workers, scale=scale, label="dec-threads2",
                        mt_prefix=True)
     ex_all &= ex
     if ex_all:
@@ -591,7 +602,7 @@ def campaign(argv):
     if which == "enc":
         opts = enc_opts()
     else:
-        opts = ["ivf=" + tiny_ivf(chk.dir), "threads=2", "frames=2"]
+        opts = ["ivf=" + tiny_ivf(chk.dir), "threads=2", "frames=2", "hard_s=150"]
 
     def choose(events):
         if mode == "all":
@@ -603,7 +614,7 @@ def campaign(argv):
         return plan(events, "campaign", chk.rng, 1.0, which)[0]
 
     if which == "dec":
-        events, found, _ = explore(chk, which, "campaign", opts[:1] + ["threads=1", "frames=2"], workers,
+        events, found, _ = explore(chk, which, "campaign", opts[:1] + ["threads=1", "frames=2", "hard_s=150"], workers,
                                    ks_override=lambda ev: [e.k for e in ev], label="dec-threads1")
         ev2, found2, _ = explore(chk, which, "campaign", opts, workers, ks_override=lambda ev: [e.k for e in ev],
                                  label="dec-threads2", mt_prefix=True)
